@@ -364,6 +364,14 @@ func (c *Ctx) ArgMatches(which string, evs []*interp.Event, i int, m Macros, src
 	return out
 }
 
+func setOf(ids ...term.ID) term.Set {
+	var s term.Set
+	for _, id := range ids {
+		s = s.Add(id)
+	}
+	return s
+}
+
 func clip(s string, n int) string {
 	if len(s) > n {
 		return s[:n] + "…"
